@@ -15,10 +15,20 @@ Definition entry_eqb (a b : entry) : bool :=
    (global_settings.last_scanned_index).  Nothing in /repo reads either of them for the
    registry: persist/sqlite/registry.go is the only code that names registry_entries, and it
    has no DELETE and no WHERE on expiration_height. *)
-Record state := { entries : list (N * entry); exps : list (N * N); limit : N; metric : Z; tip : N }.
-Definition init : state := {| entries := []; exps := []; limit := 0; metric := 0; tip := 0 |}.
+(* [pend_r]/[pend_w]: the manager's access recorder (host/registry/recorder.go), in memory:
+   Manager.Get counts a read when it succeeds, Manager.Put a write when it UPDATES a stored key
+   (not when it inserts).  [mreads]/[mwrites]: host_stats registryReads / registryWrites, to
+   which recorder.Flush (10 s timer, Manager.Close) adds the pending counts through
+   IncrementRegistryAccess.  None of the four touches registryEntries ([metric]). *)
+Record state := { entries : list (N * entry); exps : list (N * N); limit : N; metric : Z; tip : N;
+                  pend_r : N; pend_w : N; mreads : Z; mwrites : Z }.
+Definition init : state := {| entries := []; exps := []; limit := 0; metric := 0; tip := 0;
+                              pend_r := 0; pend_w := 0; mreads := 0; mwrites := 0 |}.
 
 Definition count (s : state) : N := N.of_nat (length (entries s)).
+
+(* a store call that fails with an error other than "not found" *)
+Inductive fault := FLookup | FWrite.
 
 Inductive op :=
 | SetLimit (n : N)
@@ -31,14 +41,26 @@ Inductive op :=
   (* the store's processed chain tip moves to height h *)
 | Tip (h : N)
   (* the expiration_height column of key k, read by the harness with its own SQL connection *)
-| Exp (k : N).
+| Exp (k : N)
+  (* recorder.Flush; [ok] = IncrementRegistryAccess succeeded *)
+| Flush (ok : bool)
+  (* host_stats registryReads / registryWrites *)
+| Access
+  (* Manager.Put while store.GetRegistryValue (FLookup) resp. store.SetRegistryValue (FWrite) fails
+     with an error that is not ErrEntryNotFound / ErrNotEnoughSpace *)
+| PutF (k : N) (e : entry) (valid : bool) (f : fault)
+  (* Manager.Get while store.GetRegistryValue fails; Manager.Entries while RegistryEntries fails *)
+| GetF (k : N)
+| InfoF.
 
 Inductive obs :=
 | ODone
 | OPut (accepted : bool) (ret : option entry)   (* None = zero RegistryValue *)
 | OGet (v : option entry)
 | OInfo (cnt lim : N) (m : Z)
-| OExp (h : option N).
+| OExp (h : option N)
+| OAccess (r w : Z)
+| OFail.
 
 (* rhp3.ValidateRegistryUpdate: revision order first, core's tie-break otherwise *)
 Definition supersedes (old new : entry) (tie : bool) : bool :=
@@ -49,15 +71,53 @@ Definition supersedes (old new : entry) (tie : bool) : bool :=
 (* SetRegistryValue once the manager decided to write: the row of k holds e and exp *)
 Definition write (s : state) (k : N) (e : entry) (exp : N) (dm : Z) : state :=
   {| entries := aset k e (entries s); exps := aset k exp (exps s); limit := limit s;
-     metric := metric s + dm; tip := tip s |}.
+     metric := metric s + dm; tip := tip s;
+     pend_r := pend_r s; pend_w := pend_w s; mreads := mreads s; mwrites := mwrites s |}.
+
+(* recorder.AddRead / AddWrite *)
+Definition add_r (s : state) : state :=
+  {| entries := entries s; exps := exps s; limit := limit s; metric := metric s; tip := tip s;
+     pend_r := pend_r s + 1; pend_w := pend_w s; mreads := mreads s; mwrites := mwrites s |}.
+Definition add_w (s : state) : state :=
+  {| entries := entries s; exps := exps s; limit := limit s; metric := metric s; tip := tip s;
+     pend_r := pend_r s; pend_w := pend_w s + 1; mreads := mreads s; mwrites := mwrites s |}.
+
+(* recorder.Flush: the pending counts are taken (and zeroed) first, then persisted; a failing
+   IncrementRegistryAccess loses them *)
+Definition flush (s : state) (ok : bool) : state :=
+  {| entries := entries s; exps := exps s; limit := limit s; metric := metric s; tip := tip s;
+     pend_r := 0; pend_w := 0;
+     mreads := if ok then mreads s + Z.of_N (pend_r s) else mreads s;
+     mwrites := if ok then mwrites s + Z.of_N (pend_w s) else mwrites s |}.
 
 Definition step (s : state) (o : op) : state * obs :=
   match o with
-  | SetLimit n => ({| entries := entries s; exps := exps s; limit := n; metric := metric s; tip := tip s |}, ODone)
-  | Get k => (s, OGet (alookup k (entries s)))
+  | SetLimit n => ({| entries := entries s; exps := exps s; limit := n; metric := metric s; tip := tip s;
+                      pend_r := pend_r s; pend_w := pend_w s; mreads := mreads s; mwrites := mwrites s |}, ODone)
+  | Get k => match alookup k (entries s) with
+             | Some e => (add_r s, OGet (Some e))
+             | None => (s, OGet None)
+             end
   | Info => (s, OInfo (count s) (limit s) (metric s))
-  | Tip h => ({| entries := entries s; exps := exps s; limit := limit s; metric := metric s; tip := h |}, ODone)
+  | Tip h => ({| entries := entries s; exps := exps s; limit := limit s; metric := metric s; tip := h;
+                 pend_r := pend_r s; pend_w := pend_w s; mreads := mreads s; mwrites := mwrites s |}, ODone)
   | Exp k => (s, OExp (alookup k (exps s)))
+  | Flush ok => (flush s ok, ODone)
+  | Access => (s, OAccess (mreads s) (mwrites s))
+  | PutF k e valid f =>
+      (* invalid: refused before any store call.  FLookup: "failed to get registry value", the
+         zero value.  FWrite: a new key returns the offered value, a stored key the stored one
+         (whether the update supersedes it — then SetRegistryValue fails — or not) *)
+      if negb valid then (s, OPut false None)
+      else match f with
+           | FLookup => (s, OPut false None)
+           | FWrite => match alookup k (entries s) with
+                       | None => (s, OPut false (Some e))
+                       | Some old => (s, OPut false (Some old))
+                       end
+           end
+  | GetF k => (s, OGet None)
+  | InfoF => (s, OFail)
   | Put k e exp valid tie =>
       if negb valid then (s, OPut false None)
       else match alookup k (entries s) with
@@ -67,7 +127,7 @@ Definition step (s : state) (o : op) : state * obs :=
                else (write s k e exp 1, OPut true (Some e))
            | Some old =>
                if supersedes old e tie
-               then (write s k e exp 0, OPut true (Some e))
+               then (add_w (write s k e exp 0), OPut true (Some e))
                else (s, OPut false (Some old))
            end
   end.
@@ -75,10 +135,12 @@ Definition step (s : state) (o : op) : state * obs :=
 Definition obs_eqb (a b : obs) : bool :=
   match a, b with
   | ODone, ODone => true
+  | OFail, OFail => true
   | OPut x r, OPut y q => Bool.eqb x y && option_eqb entry_eqb r q
   | OGet v, OGet w => option_eqb entry_eqb v w
   | OInfo c l m, OInfo c' l' m' => ((c =? c') && (l =? l'))%N && (m =? m')%Z
   | OExp h, OExp h' => option_eqb N.eqb h h'
+  | OAccess r w, OAccess r' w' => ((r =? r') && (w =? w'))%Z
   | _, _ => false
   end.
 
